@@ -20,7 +20,7 @@
  "name": "ea_inode_create_fail",
  "props": ["C15"],
  "level": "P",
- "tier": "wip",
+ "tier": "quick",
  "harness": "h_create_fail",
  "replace": ["xattr_inode_dec_ref"],
  "unwind": 4,
